@@ -71,9 +71,9 @@ func c17Trans(c *Ctx, pre *Node, st Step, res *Result, post *State) ([]Violation
 }
 
 func checkC17(e *RunEnv) *CheckResult {
-	files := []string{"a", "sub/b", "build/o", "x.log", "sub/y.log", "my.goit/f", "goit/g", "a.logx", "build2/p", ".goit-hooks/h"}
+	files := []string{"a", "sub/b", "build/o", "x.log", "sub/y.log", "my.goit/f", "goit/g", "a.logx", "build2/p", ".goit-hooks/h", "sub/.goit", "sub/build", "p.tar.gz"}
 	addArgs := []string{".", "./", "sub", "sub/..", "build", "build/o", "x.log", ".goit", ".goit/HEAD", "a", "my.goit", "goit"}
-	ignores := []string{"build/\n", "*.log\n", "build/\n*.log\n"}
+	ignores := []string{"build/\n", "*.log\n", "build/\n*.log\n", "build/\r\n*.log\r\n", "*.tar.gz\n"}
 	var seedFiles []Step
 	seedFiles = append(seedFiles, seedS0()...)
 	for _, f := range files {
@@ -81,7 +81,7 @@ func checkC17(e *RunEnv) *CheckResult {
 	}
 	spec := &Spec{
 		Seeds: []Seed{{"S0+files", seedFiles}, {"S0+files+ignore", append(append([]Step{}, seedFiles...), Write(".goitignore", "build/\n*.log\n"))}},
-		Depth: e.pick(4, 6),
+		Depth: e.pick(4, 5),
 		Steps: func(n *Node) []Step {
 			a := n.Abs()
 			st := stateTags(a)
